@@ -194,6 +194,45 @@ Definition reports_less (q a : quote) : Prop :=
   live_time (qmetrics q) < live_time (qmetrics a) \/
   received_payment_count (qmetrics q) < received_payment_count (qmetrics a).
 
+(* ---------- ant-node/src/quote.rs: the node's quoting duty ----------
+   `Network::verify` checks a signature with the node's OWN key (self_key); the quote's pub_key field
+   is not consulted there.  An address enters only through `as_xorname().unwrap_or_default()`. *)
+Inductive storecost_res := SOk | SErrContent | SErrExpired | SErrSignature.
+
+Definition storecost_code (r : storecost_res) : N :=
+  match r with SOk => 0 | SErrContent => 1 | SErrExpired => 2 | SErrSignature => 3 end.
+
+(* verify_quote_for_storecost *)
+Definition verify_quote_for_storecost (K : keysys) (now : N) (self_key : N) (q : quote) (addr_xor : list N)
+  : storecost_res :=
+  if negb (bytes_eqb addr_xor (content q)) then SErrContent
+  else if has_expired now q then SErrExpired
+  else if negb (sig_verify self_key (bytes_for_signing q) (interp K (signature q))) then SErrSignature
+  else SOk.
+
+Definition TIME_GAP : N := Consts.quote_time_gap_secs * NS.
+
+Definition around_same_time (q sq : quote) : bool :=
+  if timestamp sq <? timestamp q then timestamp q <? timestamp sq + TIME_GAP
+  else timestamp sq <? timestamp q + TIME_GAP.
+
+Definition duty_keep (K : keysys) (self_peer : list N) (sq : quote) (pq : list N * quote) : bool :=
+  bytes_eqb (content (snd pq)) (content sq) && negb (bytes_eqb (fst pq) self_peer) &&
+  around_same_time (snd pq) sq && check_signed K (snd pq) (fst pq).
+
+(* quotes_verification: None = nothing is handed to the swarm driver; Some l = the pairs sent down in
+   LocalSwarmCmd::QuoteVerification (to be held against the peers they are attributed to) *)
+Definition quotes_verification (K : keysys) (now : N) (self_peer : list N) (self_key : N)
+           (quotes : list (list N * quote)) : option (list (list N * quote)) :=
+  match find (fun pq : list N * quote => bytes_eqb (fst pq) self_peer) quotes with
+  | None => None
+  | Some (_, sq) =>
+      match verify_quote_for_storecost K now self_key sq (content sq) with
+      | SOk => Some (filter (duty_keep K self_peer sq) quotes)
+      | _ => None
+      end
+  end.
+
 (* ---------- the per-case key system built from what the harness reports ---------- *)
 Definition mkK (pks : list (list N * N)) (peers : list (N * list N))
            (encs : list (list N * list N)) (sigs : list (list N * sig)) : keysys :=
@@ -237,4 +276,23 @@ Fixpoint agree_history (h : history) (steps : list (delivery * (bool * option N)
       Bool.eqb f f' &&
       option_eqb N.eqb (match h_lookup p h1 with Some x => Some (timestamp x) | None => None end) ref_ts &&
       agree_history h1 r
+  end.
+
+Definition agree_storecost (K : keysys) (now self_key : N) (q : quote) (addr_xor : list N) (code : N) : bool :=
+  storecost_code (verify_quote_for_storecost K now self_key q addr_xor) =? code.
+
+(* forwarded: None if no command was emitted, else the positions (in the input) of the pairs sent down *)
+Definition agree_duty (K : keysys) (now : N) (self_peer : list N) (self_key : N)
+           (quotes : list (list N * quote)) (forwarded : option (list N)) : bool :=
+  match quotes_verification K now self_peer self_key quotes, forwarded with
+  | None, None => true
+  | Some l, Some idx =>
+      list_eqb (fun (a b : list N * quote) =>
+                  bytes_eqb (fst a) (fst b) && bytes_eqb (hash_preimage (snd a)) (hash_preimage (snd b)) &&
+                  (timestamp (snd a) =? timestamp (snd b)))
+               l (map (fun i => nth (N.to_nat i) quotes ([], {| content := []; timestamp := 0;
+                      qmetrics := {| close_records_stored := 0; max_records := 0; received_payment_count := 0;
+                                     live_time := 0; network_density := None; network_size := None |};
+                      rewards_address := []; pub_key := []; signature := [] |})) idx)
+  | _, _ => false
   end.
